@@ -19,11 +19,16 @@ package c15
 import (
 	"context"
 	"encoding/json"
+	"flag"
 	"fmt"
+	"os"
 	"reflect"
+	goruntime "runtime"
 	"sort"
+	"strconv"
 	"strings"
 	"sync/atomic"
+	"time"
 
 	"github.com/openkruise/rollouts/api/v1beta1"
 	"github.com/openkruise/rollouts/pkg/trafficrouting/network"
@@ -37,6 +42,7 @@ import (
 	"k8s.io/apimachinery/pkg/types"
 	utiljson "k8s.io/apimachinery/pkg/util/json"
 	clientgoscheme "k8s.io/client-go/kubernetes/scheme"
+	"k8s.io/klog/v2"
 	"sigs.k8s.io/controller-runtime/pkg/client"
 	"sigs.k8s.io/controller-runtime/pkg/client/fake"
 	gatewayv1beta1 "sigs.k8s.io/gateway-api/apis/v1beta1"
@@ -54,6 +60,16 @@ const (
 	bigInt     = "9007199254740993"
 	snapshotAn = custom.OriginalSpecAnnotation
 )
+
+func init() {
+	// the provider logs every failed script at ERROR level; klog copies ERROR to stderr unless told otherwise
+	fs := flag.NewFlagSet("klog", flag.ContinueOnError)
+	klog.InitFlags(fs)
+	_ = fs.Set("logtostderr", "false")
+	_ = fs.Set("alsologtostderr", "false")
+	_ = fs.Set("stderrthreshold", "FATAL")
+	_ = fs.Set("one_output", "true")
+}
 
 var scheme = func() *runtime.Scheme {
 	s := runtime.NewScheme()
@@ -81,6 +97,9 @@ type Case struct {
 	World    World                            `json:"world"`
 	Ops      []v1beta1.TrafficRoutingStrategy `json:"ops"`
 	Converge bool                             `json:"converge"`
+	// Cycles: 1 (default) or 2 = the whole history incl. Finalise is executed twice on the same store (a second
+	// rollout over the restored object)
+	Cycles int `json:"cycles,omitempty"`
 	// FixpointOnly: replay of a C15/fixpoint, istio or reference witness: Ops has one element which is iterated
 	// from the fresh store.
 	FixpointOnly bool `json:"fixpointOnly,omitempty"`
@@ -154,6 +173,10 @@ type callRes struct {
 	Err    string
 	Panic  *lib.Panic
 	Writes int
+	// Timeout: the Lua VM's 1 s REAL-TIME deadline fired. None of the scripts of this check loops; on an overloaded
+	// machine a starved worker can still exceed it. Such a call is environment noise, never a verdict: the history is
+	// re-executed (see Run) and, if it keeps happening, the case is reported as not executed (exhaustive=false).
+	Timeout bool
 }
 
 func (r callRes) String() string {
@@ -173,6 +196,7 @@ func (e *env) ensure(s *v1beta1.TrafficRoutingStrategy) (res callRes) {
 		res.Done = done
 		if err != nil {
 			res.Err = err.Error()
+			res.Timeout = strings.Contains(res.Err, "context deadline exceeded") || strings.Contains(res.Err, "context canceled")
 		}
 	})
 	res.Writes = e.cli.writes - before
@@ -359,6 +383,17 @@ func diffKind(p string, a, b interface{}) (string, string) {
 	return p, "value-changed"
 }
 
+// coarseKind folds the difference classes into the three that separate distinct defects.
+func coarseKind(k string) string {
+	switch k {
+	case "number-changed":
+		return "number-precision"
+	case "empty-collection-kind-changed", "null-valued-key-dropped":
+		return "empty-or-null-representation"
+	}
+	return "content"
+}
+
 // normEmpty: empty map == empty list == null == absent key (proto3 / JSON "no configuration" equivalence). Only used
 // by the "untouched" / "split" oracles for values that went through the Lua bridge (which cannot represent empty
 // collections); NOT used by the restore oracle.
@@ -490,6 +525,31 @@ type runner struct {
 	orig  []view
 	// statistics
 	calls int64
+	// violations are buffered per world and flushed in world order so that the kept witness is deterministic
+	buffered bool
+	pendSig  []string
+	pend     map[string]*pending
+	// signatures raised in the first cycle of the running history (second-cycle reports are suppressed for them)
+	cycle      int
+	firstCycle map[string]bool
+	// timedOut: a call of the running history hit the Lua real-time deadline (see callRes.Timeout)
+	timedOut bool
+}
+
+type pending struct {
+	detail string
+	c      *Case
+	count  int
+}
+
+func (rn *runner) flush() {
+	for _, sig := range rn.pendSig {
+		p := rn.pend[sig]
+		for i := 0; i < p.count; i++ {
+			rn.r.Violate(sig, p.detail, p.c)
+		}
+	}
+	rn.pendSig, rn.pend = nil, nil
 }
 
 func newRunner(r *lib.Report, w *World, trace tracer) (*runner, error) {
@@ -503,16 +563,40 @@ func newRunner(r *lib.Report, w *World, trace tracer) (*runner, error) {
 }
 
 func (rn *runner) violate(sig, detail string, c *Case) {
+	if rn.cycle >= 2 {
+		if rn.firstCycle[sig] {
+			return
+		}
+		sig += "/second-cycle"
+	} else if rn.firstCycle != nil {
+		rn.firstCycle[sig] = true
+	}
 	rn.trace("  VERDICT violation %s\n    %s", sig, strings.ReplaceAll(detail, "\n", "\n    "))
-	rn.r.Violate(sig, detail, c)
+	if !rn.buffered {
+		rn.r.Violate(sig, detail, c)
+		return
+	}
+	if rn.pend == nil {
+		rn.pend = map[string]*pending{}
+	}
+	if p, ok := rn.pend[sig]; ok {
+		p.count++
+		return
+	}
+	rn.pend[sig] = &pending{detail: detail, c: c, count: 1}
+	rn.pendSig = append(rn.pendSig, sig)
 }
 
 func (rn *runner) mkCase(ops []v1beta1.TrafficRoutingStrategy, converge, fixOnly bool) *Case {
+	return rn.mkCaseN(ops, converge, fixOnly, 1)
+}
+
+func (rn *runner) mkCaseN(ops []v1beta1.TrafficRoutingStrategy, converge, fixOnly bool, cycles int) *Case {
 	cp := make([]v1beta1.TrafficRoutingStrategy, len(ops))
 	for i := range ops {
 		cp[i] = *ops[i].DeepCopy()
 	}
-	return &Case{World: *rn.w, Ops: cp, Converge: converge, FixpointOnly: fixOnly}
+	return &Case{World: *rn.w, Ops: cp, Converge: converge, FixpointOnly: fixOnly, Cycles: cycles}
 }
 
 func (rn *runner) panicked(where string, res callRes, c *Case) bool {
@@ -539,18 +623,34 @@ func (rn *runner) ref(s *v1beta1.TrafficRoutingStrategy) *refResult {
 		return rr
 	}
 	c := rn.mkCase([]v1beta1.TrafficRoutingStrategy{*s}, false, true)
-	e, err := newEnv(rn.w)
-	if err != nil {
-		panic(err)
+	savedCycle, savedFirst := rn.cycle, rn.firstCycle
+	rn.cycle, rn.firstCycle = 1, nil
+	defer func() { rn.cycle, rn.firstCycle = savedCycle, savedFirst }()
+	var e *env
+	var res callRes
+	for attempt := 0; attempt < 5; attempt++ {
+		var err error
+		if e, err = newEnv(rn.w); err != nil {
+			panic(err)
+		}
+		rn.trace("reference: EnsureRoutes(%s) alone on the untouched store", opName(s))
+		res = e.ensure(s)
+		rn.calls++
+		if !res.Timeout {
+			break
+		}
+		rn.trace("  (Lua real-time deadline hit; retrying)")
 	}
-	rn.trace("reference: EnsureRoutes(%s) alone on the untouched store", opName(s))
-	res := e.ensure(s)
-	rn.calls++
 	rr := &refResult{Res: res, Views: e.views()}
 	rn.refs[key] = rr
 	rn.trace("  call 1 -> %s", res)
 	rn.traceViews(rr.Views)
 	if rn.panicked("EnsureRoutes", res, c) {
+		return rr
+	}
+	if res.Timeout {
+		rn.timedOut = true
+		delete(rn.refs, key)
 		return rr
 	}
 	rn.r.Outcome("ensure-alone/" + errClass(res.Err) + fmt.Sprintf("/done=%v", res.Done))
@@ -561,6 +661,9 @@ func (rn *runner) ref(s *v1beta1.TrafficRoutingStrategy) *refResult {
 		rn.checkIstio(s, i, rn.orig[i], rr.Views[i], c)
 	}
 	rn.fixpoint(e, s, res, 1, c, "fresh")
+	if rn.timedOut {
+		delete(rn.refs, key) // the fixed-point monitor was cut short: evaluate again on the retry
+	}
 	return rr
 }
 
@@ -573,6 +676,10 @@ func (rn *runner) fixpoint(e *env, s *v1beta1.TrafficRoutingStrategy, last callR
 		n++
 		rn.trace("  fixpoint: call %d -> %s", n, last)
 		if rn.panicked("EnsureRoutes", last, c) {
+			return false
+		}
+		if last.Timeout {
+			rn.timedOut = true
 			return false
 		}
 		if last.Err != "" {
@@ -591,6 +698,10 @@ func (rn *runner) fixpoint(e *env, s *v1beta1.TrafficRoutingStrategy, last callR
 	rn.calls++
 	rn.trace("  fixpoint: one more call -> %s", extra)
 	if rn.panicked("EnsureRoutes", extra, c) {
+		return false
+	}
+	if extra.Timeout {
+		rn.timedOut = true
 		return false
 	}
 	after := e.dump()
@@ -662,7 +773,7 @@ func hostClass(rule map[string]interface{}, stable string) string {
 			return "stable"
 		}
 		if strings.HasPrefix(h, stable+".") {
-			cls = "same-name-other-namespace"
+			cls = "same-first-label-other-host"
 		}
 	}
 	return cls
@@ -767,16 +878,44 @@ func (rn *runner) checkIstio(s *v1beta1.TrafficRoutingStrategy, i int, orig, now
 // ---------------------------------------------------------------------------------------------------
 // one history
 
-// runHistory executes ops (one EnsureRoutes call each), optionally converges the last one, then Finalise twice.
-// Returns whether the provider wrote anything.
-func (rn *runner) runHistory(ops []v1beta1.TrafficRoutingStrategy, converge bool) (wrote bool) {
-	c := rn.mkCase(ops, converge, false)
+// runHistory executes ops (one EnsureRoutes call each), optionally converges the last one, then Finalise twice;
+// with cycles == 2 the same is repeated on the same store. Returns whether the provider wrote anything.
+func (rn *runner) runHistory(ops []v1beta1.TrafficRoutingStrategy, converge bool, cycles int) (wrote bool) {
+	if cycles < 1 {
+		cycles = 1
+	}
+	c := rn.mkCaseN(ops, converge, false, cycles)
 	e, err := newEnv(rn.w)
 	if err != nil {
 		panic(err)
 	}
+	rn.firstCycle = map[string]bool{}
+	defer func() { rn.cycle, rn.firstCycle = 0, nil }()
+	for cy := 1; cy <= cycles; cy++ {
+		rn.cycle = cy
+		w, ok := rn.runCycle(e, c, ops, converge, cy)
+		wrote = wrote || w
+		if !ok {
+			break
+		}
+		// a second cycle presupposes that the first one gave the user's object back
+		broken := false
+		for sig := range rn.firstCycle {
+			if strings.HasPrefix(sig, "C15/restore/") {
+				broken = true
+			}
+		}
+		if broken {
+			break
+		}
+	}
+	return
+}
+
+// runCycle returns (wrote, completed).
+func (rn *runner) runCycle(e *env, c *Case, ops []v1beta1.TrafficRoutingStrategy, converge bool, cy int) (wrote bool, completed bool) {
 	cls := rn.worldClass()
-	rn.trace("history %s converge=%v", opsName(ops), converge)
+	rn.trace("history %s converge=%v cycle=%d", opsName(ops), converge, cy)
 	var last callRes
 	for k := range ops {
 		s := &ops[k]
@@ -788,6 +927,10 @@ func (rn *runner) runHistory(ops []v1beta1.TrafficRoutingStrategy, converge bool
 			wrote = true
 		}
 		if rn.panicked("EnsureRoutes", last, c) {
+			return
+		}
+		if last.Timeout || rr.Res.Timeout {
+			rn.timedOut = true
 			return
 		}
 		now := e.views()
@@ -829,6 +972,9 @@ func (rn *runner) runHistory(ops []v1beta1.TrafficRoutingStrategy, converge bool
 	}
 	if converge && len(ops) > 0 && last.Err == "" && last.Panic == nil {
 		rn.fixpoint(e, &ops[len(ops)-1], last, 1, c, "after-history")
+		if rn.timedOut {
+			return
+		}
 	}
 	// Finalise
 	f1 := e.finalise()
@@ -863,6 +1009,7 @@ func (rn *runner) runHistory(ops []v1beta1.TrafficRoutingStrategy, converge bool
 		}
 		if o.Spec != a.Spec {
 			p, kind := diffKind("spec", specOf(o.obj), specOf(a.obj))
+			kind = coarseKind(kind)
 			rn.violate("C15/restore/"+sc+"/spec/"+kind, fmt.Sprintf("%s: spec differs at %s (%s)\n original: %s\n restored: %s", where, p, kind, o.Spec, a.Spec), c)
 		}
 		if !sameStrMap(o.Labels, a.Labels) {
@@ -883,6 +1030,7 @@ func (rn *runner) runHistory(ops []v1beta1.TrafficRoutingStrategy, converge bool
 	if f2.Err != "" || f2.Done || f2.Writes != 0 || before != e.dump() {
 		rn.violate("C15/fixpoint/finalise-second-call/"+cls, fmt.Sprintf("second Finalise after %s returned %s (expected false, no write)", opsName(ops), f2), c)
 	}
+	completed = true
 	return
 }
 
@@ -1124,20 +1272,29 @@ func drRef(name string) v1beta1.ObjectRef {
 func istioWorlds(th bool) []*World {
 	var out []*World
 	specs := vsSpecs(th)
+	nSingles := len(vsRules)
 	type mm struct{ l, a int }
-	metas := []mm{{0, 0}, {1, 1}, {2, 2}}
-	if th {
-		metas = nil
-		for l := 0; l < 3; l++ {
-			for a := 0; a < 3; a++ {
-				metas = append(metas, mm{l, a})
-			}
+	diag := []mm{{0, 0}, {1, 1}, {2, 2}}
+	var full []mm
+	for l := 0; l < 3; l++ {
+		for a := 0; a < 3; a++ {
+			full = append(full, mm{l, a})
 		}
-		metas = append(metas, mm{3, 3})
 	}
+	full = append(full, mm{3, 3})
 	vs2 := specShape{"vs2", `{"hosts":["second"],"http":[` + vsRules[1].json_ + `,` + vsRules[0].json_ + `]}`}
 	for si, spc := range specs {
-		for _, m := range metas {
+		// single-rule and tcp/tls/empty specs get every diagonal meta mode (thorough: singles get all 10 meta modes);
+		// the multi-rule http lists get one meta mode each (rotating) in quick, the diagonal in thorough
+		multi := strings.HasPrefix(spc.name, "http=") && strings.Contains(spc.name, ",")
+		metas := diag
+		switch {
+		case th && si < nSingles:
+			metas = full
+		case !th && multi:
+			metas = diag[si%3 : si%3+1]
+		}
+		for mi, m := range metas {
 			lab, ann := labelModes[m.l], annotationModes[m.a]
 			vs := func() map[string]interface{} { return mkObject(istioAV, "VirtualService", "vs", lab, ann, spc) }
 			id := func(mode string) string {
@@ -1148,7 +1305,11 @@ func istioWorlds(th bool) []*World {
 			// [VS, DR], subset mode (canary service == stable service)
 			out = append(out, &World{ID: id("vs+dr-basic/subset-mode"), Objects: []map[string]interface{}{vs(), mkObject(istioAV, "DestinationRule", "dr", lab, ann, drSpecs[0])},
 				Refs: []v1beta1.ObjectRef{vsRef("vs"), drRef("dr")}, Stable: stableSvc, Canary: stableSvc})
-			if !th && si >= 6 {
+			// the other ref sets: first six single-rule specs (thorough: all single-rule specs), one meta mode (thorough: diagonal)
+			if th && (si >= nSingles || m.l != m.a || m.l == 3) {
+				continue
+			}
+			if !th && (si >= 6 || mi != si%3) {
 				continue
 			}
 			for _, d := range drSpecs[1:] {
@@ -1189,11 +1350,12 @@ func genericWorlds(th bool) []*World {
 		}
 	}
 	if th {
-		// every script of the grammar × (every spec shape × diagonal meta modes  ∪  first four spec shapes × all 16 meta modes)
+		// every script of the grammar × (first four spec shapes × all 16 meta modes  ∪  every other spec shape × one
+		// diagonal meta mode, rotating): label / annotation actions do not look at the spec, spec actions not at metadata
 		for si, spc := range specs {
 			for l := range labelModes {
 				for a := range annotationModes {
-					if si >= 4 && (l != a || l == 3) {
+					if si >= 4 && (l != a || l != si%3) {
 						continue
 					}
 					for s := range specActions {
@@ -1207,12 +1369,11 @@ func genericWorlds(th bool) []*World {
 			}
 		}
 	} else {
-		// (A) every spec shape × diagonal meta modes × every spec action
-		for _, spc := range specs {
-			for m := 0; m < 3; m++ {
-				for s := range specActions {
-					add(one(spc, m, m, mkScript(s, 0, 0)))
-				}
+		// (A) every spec shape × every spec action, meta mode rotating over the diagonal (spec actions do not look at metadata)
+		for si, spc := range specs {
+			for s := range specActions {
+				m := (si + s) % 3
+				add(one(spc, m, m, mkScript(s, 0, 0)))
 			}
 		}
 		// (B) first three spec shapes × every label mode × every annotation mode × label/annotation actions (one at a time + two combinations)
@@ -1293,17 +1454,34 @@ func sequences(n, maxLen int) [][]int {
 
 func Run(r *lib.Report) {
 	th := r.Thorough()
+	// every provider call builds a fresh Lua VM (large, short-lived allocations) while the live heap is tiny: with the
+	// default pacing the collector runs thousands of cycles per second and the workers spend their time in
+	// stop-the-world hand-shakes. A never-touched 1 GiB ballast (address space only) spaces the cycles out.
+	ballast := make([]byte, 1<<30)
+	defer goruntime.KeepAlive(ballast)
 	all := strategies()
-	nIstio, nGeneric, maxLen := 5, 4, 3
+	// sequence alphabets = prefixes of strategies(); the single-call oracles (reference, Istio split / untouched,
+	// fixed point) are evaluated for ALL strategies in every world
+	nIstio, nGeneric, maxLen := 4, 4, 3
 	if th {
-		nIstio, nGeneric = len(all), 6
+		nIstio = 6 // generic scripts see a weight as just a number: the thorough tier widens the worlds instead
 	}
+	budget := 240 * time.Second
+	if th {
+		budget = 14 * time.Minute
+	}
+	if v, err := strconv.Atoi(os.Getenv("VERIF_C15_DEADLINE_S")); err == nil && v > 0 {
+		budget = time.Duration(v) * time.Second
+	}
+	deadline := time.Now().Add(budget)
 	r.Rule = "worlds = (Istio VirtualService specs built from a 13-rule alphabet [all singles, ordered pairs, thorough: triples] + tcp/tls/empty variants) × " +
 		"label/annotation modes (absent/empty/set/clash) × ref sets ([VS]; [VS,DR×4 shapes] in subset mode; [VS,VS2]; [VS,missing]; [DR,VS]) with the built-in scripts, " +
 		"plus generic Widget objects from a nested-spec generator (scalars incl. null/big int, empty maps/lists, depth<=3, absent/non-map spec) × meta modes × " +
 		"every script of the grammar {6 spec actions}×{5 label actions}×{4 annotation actions} (quick: one action dimension at a time + combinations) delivered through the ConfigMap, 1-2 refs. " +
-		"Per world: EVERY sequence of strategies of length 0..3 over the strategy alphabet (one real EnsureRoutes call per element) followed by Finalise twice, " +
-		"and, for sequences of length<=2, the same again with the last strategy iterated to its fixed point before Finalise. " +
+		"Per world: each of the 8 strategies alone (reference state, Istio oracles, C07-O3 fixed point), then EVERY sequence of length 0..3 over the first 4 (thorough, Istio worlds: 6) strategies " +
+		"(one real EnsureRoutes call per element) followed by Finalise twice, " +
+		"for sequences of length 1..2 the same again with the last strategy iterated to its fixed point before Finalise, " +
+		"and for sequences of length 1 the same again as two consecutive cycles (history, Finalise, history, Finalise) on one store. " +
 		"evaluation = one (world, sequence, variant); non-trivial = the provider wrote to the store during the history; distinct = distinct (world, sequence, variant)"
 	r.Assumptions = []string{
 		"labels/annotations: an empty map and an absent map are the same configuration (API server semantics) and compare equal",
@@ -1314,6 +1492,7 @@ func Run(r *lib.Report) {
 		"Istio 'other host' = no destination of the rule denotes the stable Service of the rollout namespace (short name, name.ns, name.ns.svc[.cluster.local]); 'untouched' is compared modulo {} == [] == null == absent because the Lua bridge cannot represent empty collections",
 		"the same object is never referenced twice in one ref list",
 		"fake client = controller-runtime v0.14.6 fake with unstructured objects (no admission, no pruning)",
+		"the Lua VM's 1 s deadline is real time; no script of this domain loops, so a `context deadline exceeded` is machine overload: the case is re-executed (4 tries) and otherwise reported as not judged (exhaustive=false), never as a verdict",
 	}
 	r.TrustedBase = []string{"controller-runtime fake client (unstructured tracker)", "hostIsStable / normEmpty reference helpers in c15.go"}
 
@@ -1343,46 +1522,96 @@ func Run(r *lib.Report) {
 	r.Extra["sequences_per_generic_world"] = len(seqG)
 	r.Extra["max_history_length"] = maxLen
 
-	var calls, evals int64
+	var calls, evals, skipped, starved int64
+	runners := make([]*runner, len(jobs))
+	type variant struct {
+		conv   bool
+		cycles int
+	}
 	lib.ParallelFor(len(jobs), func(j int) {
 		w := jobs[j].w
 		seqs := seqG
 		if strings.HasPrefix(w.ID, "istio/") {
 			seqs = seqI
 		}
+		if time.Now().After(deadline) {
+			if atomic.AddInt64(&skipped, 1) == 1 {
+				r.NotExhaustive(fmt.Sprintf("wall-clock budget of %s used up; remaining worlds skipped", budget))
+			}
+			return
+		}
 		rn, err := newRunner(r, w, noTrace)
 		if err != nil {
 			r.Violate("C15/harness/new-controller", err.Error(), w)
 			return
 		}
+		rn.buffered = true
+		runners[j] = rn
 		var n int64
+		// attempt re-executes a case whose run was disturbed by the Lua VM's real-time deadline (machine overload)
+		attempt := func(f func()) {
+			for try := 0; try < 4; try++ {
+				rn.timedOut = false
+				f()
+				if !rn.timedOut {
+					return
+				}
+			}
+			rn.timedOut = false
+			if atomic.AddInt64(&starved, 1) == 1 {
+				r.NotExhaustive("the Lua VM's 1 s real-time deadline fired repeatedly (overloaded machine); those cases were not judged")
+			}
+		}
+		for i := range all {
+			s := &all[i]
+			attempt(func() {
+				if p := lib.Catch(func() { rn.ref(s) }); p != nil {
+					r.Violate("C15/harness/panic-in-check", p.Value+"\n"+firstStack(p.Stack), rn.mkCase(all[i:i+1], false, true))
+				}
+			})
+		}
 		for _, sq := range seqs {
 			ops := make([]v1beta1.TrafficRoutingStrategy, len(sq))
 			for k, i := range sq {
 				ops[k] = all[i]
 			}
-			for _, conv := range []bool{false, true} {
-				if conv && (len(sq) == 0 || len(sq) > 2) {
-					continue
-				}
+			variants := []variant{{false, 1}}
+			if len(sq) == 1 || len(sq) == 2 {
+				variants = append(variants, variant{true, 1})
+			}
+			if len(sq) == 1 {
+				variants = append(variants, variant{false, 2})
+			}
+			for _, v := range variants {
 				var wrote bool
-				if p := lib.Catch(func() { wrote = rn.runHistory(ops, conv) }); p != nil {
-					r.Violate("C15/harness/panic-in-check", p.Value+"\n"+firstStack(p.Stack), rn.mkCase(ops, conv, false))
-				}
+				attempt(func() {
+					if p := lib.Catch(func() { wrote = rn.runHistory(ops, v.conv, v.cycles) }); p != nil {
+						r.Violate("C15/harness/panic-in-check", p.Value+"\n"+firstStack(p.Stack), rn.mkCaseN(ops, v.conv, false, v.cycles))
+					}
+				})
 				n++
 				if wrote {
-					r.Nontrivial(fmt.Sprintf("%s|%v|%v", w.ID, sq, conv))
+					r.Nontrivial(fmt.Sprintf("%s|%v|%v|%d", w.ID, sq, v.conv, v.cycles))
 				}
 			}
 		}
 		r.AddEval(n)
 		atomic.AddInt64(&evals, n)
 		atomic.AddInt64(&calls, rn.calls)
+		rn.refs, rn.orig = nil, nil // only the buffered violations are needed after the job
 		if j == 1 || j == len(jobs)/2 || j == len(jobs)-1 {
 			r.Sample(map[string]interface{}{"world": w.ID, "objects": w.Objects, "refs": w.Refs, "histories": len(seqs)})
 		}
 	})
+	// flush in world order (simplest first): the witness kept per signature does not depend on scheduling
+	for _, rn := range runners {
+		if rn != nil {
+			rn.flush()
+		}
+	}
 	r.Extra["provider_calls"] = calls
+	r.Extra["worlds_skipped_by_deadline"] = skipped
+	r.Extra["cases_not_judged_lua_deadline_under_load"] = starved
 	if evals == 0 {
 		r.Warn("no case executed")
 	}
@@ -1439,7 +1668,7 @@ func Replay(r *lib.Report, raw json.RawMessage) {
 			rn.ref(&c.Ops[i])
 		}
 	} else {
-		if p := lib.Catch(func() { rn.runHistory(c.Ops, c.Converge) }); p != nil {
+		if p := lib.Catch(func() { rn.runHistory(c.Ops, c.Converge, c.Cycles) }); p != nil {
 			fmt.Println("check panicked:", p.Value)
 		}
 	}
